@@ -47,7 +47,7 @@ func (e *Encoder) clauseInMode(c Clause) bool {
 func (p *Program) Verify(fn *ssa.Function, fc *FuncContract, mode Mode, primary, dual bool, seed map[string]string, ordSeed map[string][]ssa.Instruction) (enc *Encoder) {
 	e := &Encoder{prog: p, fn: fn, fc: fc, mode: mode, primary: primary, dual: dual, c: NewCtx(mode, p.specs), vals: map[ssa.Value]Val{},
 		pcs: map[*ssa.BasicBlock]string{}, exit: map[*ssa.BasicBlock]*State{}, counts: map[string]int{},
-		labels: map[string]*Env{}, ghost: map[string]Val{}, pkg: fn.Pkg.Pkg,
+		labels: map[string]*Env{}, ghost: map[string]Val{}, pkg: fnTypesPkg(fn),
 		siteCounts: map[string]int{}, siteHit: map[string]bool{}, closures: map[string]*ssa.MakeClosure{}, arrSlices: map[string]arrSlice{},
 		ranges: map[*ssa.Range]rangeIter{}, usedContracts: map[string]bool{}, usedStdlib: map[string]bool{},
 		ordLog: map[string][]ssa.Instruction{}, ordSeed: ordSeed}
@@ -109,6 +109,17 @@ func (p *Program) Verify(fn *ssa.Function, fc *FuncContract, mode Mode, primary,
 	for _, fv := range fn.FreeVars {
 		v := e.val(fv)
 		e.params[fv.Name()] = v
+		// go/ssa captures every variable by reference: a free variable is the address of an Alloc cell of an
+		// enclosing function, i.e. a whole object (never a field or an element), and distinct free variables
+		// are distinct cells.
+		if _, ok := fv.Type().Underlying().(*types.Pointer); ok {
+			c.assume(fmt.Sprintf("((_ is lroot) %s)", v.S))
+		}
+	}
+	for i, a := range fn.FreeVars {
+		for _, b := range fn.FreeVars[i+1:] {
+			c.assume(fmt.Sprintf("(not (= %s %s))", e.val(a).S, e.val(b).S))
+		}
 	}
 	e.baseEnv = e.envFor(e.entry)
 	for k, v := range e.params {
@@ -196,6 +207,23 @@ func (e *Encoder) envAt(st *State, blk *ssa.BasicBlock, phiOverride map[string]V
 	env.reached = func(name string) (string, bool) {
 		pc, ok := e.reachedPC[name]
 		return pc, ok
+	}
+	env.namedKnown = e.namedKnown
+	env.curCtr = st.ctr
+	// innermost enclosing loop that ranges over a map: visited(k)
+	var best *loopInfo
+	for _, li := range e.loops {
+		if blk != nil && li.body[blk] && mapRangeOf(li.header) != nil && (best == nil || len(li.body) < len(best.body)) {
+			best = li
+		}
+	}
+	if best != nil {
+		rg := mapRangeOf(best.header)
+		mt := rg.X.Type().Underlying().(*types.Map)
+		vk, _, srt := rangeGhostKeys(rg, e.c.sortOf(mt.Key()))
+		env.visited = func(k Val) string {
+			return fmt.Sprintf("(select %s %s)", st.get(e.c, vk, srt), env.coerce(k, mt.Key()).S)
+		}
 	}
 	env.lookup = func(name string) (Val, bool) {
 		if v, ok := phiOverride[name]; ok {
@@ -420,7 +448,7 @@ func (e *Encoder) loopHeader(li *loopInfo, b *ssa.BasicBlock, st *State, pc stri
 	spec, handled := e.loopSpecificWrites(li.body)
 	keys, all := e.memKeysWritten(li.body, handled)
 	if all {
-		e.havocAll(st, fmt.Sprintf("loop %d body has unknown memory effects", li.ord))
+		e.havocKeeping(st, fmt.Sprintf("loop %d body has unknown memory effects", li.ord), li.body)
 	} else {
 		// cells written at loop-invariant locations: havoc exactly those cells
 		for k, locs := range spec {
@@ -999,7 +1027,10 @@ func (e *Encoder) unsupported(in ssa.Instruction, st *State, pc string) {
 func (e *Encoder) makeSafe(elem types.Type, l, k string) string {
 	c := e.c
 	intT := types.Typ[types.Int]
-	sz := e.prog.sizes.Sizeof(elem)
+	sz := int64(1) // (a type parameter has no size: the element count alone is bounded)
+	if _, isTP := elem.(*types.TypeParam); !isTP {
+		sz = e.prog.sizes.Sizeof(elem)
+	}
 	if sz <= 0 {
 		sz = 1
 	}
@@ -1317,6 +1348,9 @@ func (e *Encoder) frameObl(st *State, pc string, env *Env) {
 		old := e.entry.get(c, k, srt)
 		if cur == old {
 			continue
+		}
+		if strings.HasPrefix(k, "mapdom_") || strings.HasPrefix(k, "mapval_") {
+			continue // maps are not Loc-indexed: map contents are outside the frame obligation
 		}
 		if strings.HasPrefix(k, "arr_") {
 			same = append(same, fmt.Sprintf("(=> (is_lelem %s) (= (select (select %s (ebase %s)) (eidx %s)) (select (select %s (ebase %s)) (eidx %s))))", p, cur, p, p, old, p, p))
